@@ -113,6 +113,9 @@ func cmdFn(args []string) {
 				}
 			}
 		}
+		if r.Secs > 3 {
+			fmt.Printf("    [time] %s %.1fs rounds=%d\n", r.Fn, r.Secs, r.Rounds)
+		}
 		if *verbose {
 			for _, a := range r.AutoInv {
 				fmt.Printf("    auto: %s\n", a)
